@@ -43,6 +43,11 @@ theorem gen_check_better (a b : Nat) :
 that order. -/
 theorem gen_forget_order : Gen.C10.closeForgetsBeforeCallbacks = true ∧ Gen.C10.errorForgetsBeforeCallbacks = true ∧
     Gen.C10.openForgetsBeforeLink = true := by decide
+/-- The wrapper around the critical section: the lock is released in a `finally`; `_link_error_cb` only records an error that
+the driver reports to the thread that is inside `send_packet`, and `send_packet` runs it after the release
+(`stepReportingError` in the model). -/
+theorem gen_deferred_link_error : Gen.C10.errorCbDefersInsideSend = true ∧ Gen.C10.sendRunsDeferredErrorAfterRelease = true ∧
+    Gen.C10.sendLockReleasedInFinally = true ∧ Gen.C10.sendOwnerTracked = true := by decide
 theorem gen_setpoint : Gen.C10.setpointSendArgs = ["pk"] ∧ Gen.C10.setpointSize ≤ Gen.C10.maxDataSize := by decide
 
 /-! ## longest-prefix cancellation -/
@@ -302,6 +307,36 @@ theorem reliable_link_no_retry : ReliableLinkNoRetry srcCfg := by
     have := hI.treq i t ht
     omega
   exact (dead_run hc hI1 (by rw [heq]; exact Nat.lt_succ_self _) hdead evs₂).2
+
+/-- A link error that the driver reports from inside a `send_packet` (first transmission or retry) takes effect right after that
+critical section: the section itself is unaffected (same transmission, to the link that was open), then the link is closed and
+forgotten, every pending pattern is dropped, and no request made so far - including the one just sent - is ever transmitted again. -/
+theorem driver_error_inside_send (evs : List Ev) (e : Ev) (evs₂ : List Ev) :
+    let s := run srcCfg init evs
+    let s1 := stepT srcCfg s e
+    let s2 := stepReportingError srcCfg s e
+    s2.log = s1.log ∧
+    (s1.log.length > s.log.length → s2 = stepT srcCfg s1 .linkError ∧ s2.link = none ∧ s2.patterns = [] ∧
+      ∀ tx ∈ (run srcCfg s2 evs₂).log, tx.req < s1.nextReq → tx ∈ s1.log) := by
+  intro s s1 s2
+  have hc := src_repaired
+  have hs1 : s1 = run srcCfg init (evs ++ [e]) := by rw [run_append]; rfl
+  have hlog : (stepT srcCfg s1 .linkError).log = s1.log :=
+    shape_log_noTx (step_shape hc s1 .linkError) (by simp [NoTxEv])
+  by_cases h : s1.log.length > s.log.length
+  · have h2 : s2 = stepT srcCfg s1 .linkError := by
+      show stepReportingError srcCfg s e = _
+      unfold stepReportingError; exact if_pos h
+    refine ⟨by rw [h2, hlog], fun _ => ⟨h2, ?_, ?_, ?_⟩⟩
+    · rw [h2]; simp [stepT, step, forget]
+    · rw [h2]; simp [stepT, step, forget, hc.errorClears]
+    · intro tx htx hr
+      have := no_cross_session_tx.2.2 (evs ++ [e]) .linkError evs₂ (Or.inr (Or.inl rfl)) tx
+        (by rw [← hs1, ← h2]; exact htx) (by rw [← hs1]; exact hr)
+      rwa [← hs1] at this
+  · refine ⟨?_, fun h' => absurd h' h⟩
+    show (stepReportingError srcCfg s e).log = _
+    unfold stepReportingError; exact congrArg State.log (if_neg h)
 
 /-- If every link that is ever opened guarantees delivery, no retry timer is ever created. -/
 theorem reliable_links_no_timers (evs : List Ev) (h : ∀ e ∈ evs, ReliableOnly e) :
